@@ -10,12 +10,24 @@ ID = "C07"
 LEVEL = "proof"
 LEAN_IMPORTS = ["WM.Props.C07"]
 THEOREMS = ["WM.C07.refines_dict", "WM.C07.refines_dict_step", "WM.C07.delete_exact",
-            "WM.C07.delete_document_exact", "WM.C07.cancel_identity", "WM.C07.unique_invariant",
-            "WM.C07.update_all_full_false"]
+            "WM.C07.delete_document_exact", "WM.C07.undelete", "WM.C07.postings_exact", "WM.C07.cancel_identity",
+            "WM.C07.unique_invariant", "WM.C07.unique_keys", "WM.C07.update_all_full_false"]
 PARTIAL = {"WM.C07.refines_dict": "update_document is covered only when unambiguous (at most one live committed document "
                                   "per unique term): first_id deletes one document, so the full statement update_all_full "
-                                  "is false (update_all_full_false is the witness); un-delete (delete_document(delete=False)) "
-                                  "is checked by correspondence only"}
+                                  "is false (update_all_full_false is the witness). add_field is covered only for a *fresh* "
+                                  "field name (OpOK.addField): remove_field f followed by add_field f without an optimising "
+                                  "commit in between would make physically retained data of f visible again and is outside "
+                                  "the theorem. The conclusion is about content and doc_count; the posting read path is "
+                                  "postings_exact",
+           "WM.C07.unique_invariant": "the key discipline admits only add/update/delete calls (Op.plain): histories with "
+                                      "un-delete (which can resurrect a second document of a key) or schema changes are not "
+                                      "covered; the conclusion is `at most one live document per key` (a deleted key has none)",
+           "WM.C07.unique_keys": "same scope as unique_invariant (instance for the schema's unique fields, concluding the "
+                                 "specification's UniqueKeys)",
+           "WM.C07.cancel_identity": "definitional (rfl): the model's cancelled session returns the TOC it started from, a "
+                                     "writer's changes living in a private Writer value; that the real cancel() leaves TOC, "
+                                     "segment files and deleted sets untouched is established by the check (dump before = "
+                                     "dump after every cancelled or failed session), not by this theorem"}
 RULE = ("model-based writer histories (1-10 sessions of add/update/delete by number, term, query/"
         "undelete/add_field/remove_field ending in commit(NO_MERGE|MERGE_SMALL|OPTIMIZE|CLEAR), cancel or an "
         "exception inside `with`), several unique-field configurations; non-trivial = the history deletes a "
@@ -45,14 +57,33 @@ PROBES = [("every", ["every"]), ("t-aa", ["term", "txt", "aa"]), ("t-dd", ["term
 
 
 def _world_for(seed_tuple):
+    if seed_tuple[0] == "corpus":
+        rec = io.load_corpus(seed_tuple[1])
+        return rec["world"], rec["cfg"]
     pid, seed, tier, i = seed_tuple
     rng = random.Random("%s:%s:world:%d" % (pid, seed, i))
+    if i % 12 == 11:
+        # limited scored searches over multi-block posting lists with deleted best postings
+        w = io.gen_topk_world(rng)
+        cfg = io.default_config()
+        cfg["blocklimit"] = rng.choice([1, 2, 3, 4])
+        cfg["compound"] = rng.random() < 0.7
+        return w, cfg
+    if i % 12 == 5:
+        # un-delete + delete in one commit, watched by a long-lived refreshed searcher
+        w = io.gen_refresh_world(rng)
+        cfg = io.default_config()
+        cfg["blocklimit"] = rng.choice([1, 2, 128])
+        cfg["storage"] = rng.choice(["file", "ram"])
+        return w, cfg
     disciplined = rng.random() < 0.75
     w = io.gen_world(rng, disciplined=disciplined, schema_changes=rng.random() < 0.5)
     cfg = io.default_config()
     cfg["blocklimit"] = rng.choice([1, 2, 3, 128])
     cfg["storage"] = rng.choice(["file", "file", "ram"])
     cfg["compound"] = rng.random() < 0.7
+    # a tiny posting-pool limit makes SortingPool spill several runs per commit
+    cfg["limitmb"] = rng.choice([128, 128, 0.0004, 0.002, 0.01])
     return w, cfg
 
 
@@ -168,6 +199,22 @@ def check_case(ctx, pid, case, reply, label):
         for op in rs["concrete"]:
             if op[0] in ("deld", "upd"):
                 nontrivial = nontrivial or op[0] == "deld"
+        rf = rs.get("refreshed")
+        if rf is not None and sorted(ms["model"]) == sorted(ms["spec"]):
+            want = sorted(k for k, _ in ms["spec"])
+            if "error" in rf:
+                ctx.violation("Searcher.refresh:raised", where, want, rf["error"],
+                              "a long-lived searcher could not be refreshed / read after the commit")
+            else:
+                for part in ("sids", "stored", "every", "sidterms"):
+                    if rf[part] != want:
+                        ctx.violation("Searcher.refresh:%s!=live" % part, where, want, rf[part],
+                                      "a refreshed long-lived searcher does not show exactly the live documents")
+                        break
+                if rf["doc_count"] != len(want):
+                    ctx.violation("Searcher.refresh:doc_count!=live", where, len(want), rf["doc_count"],
+                                  "doc_count of a refreshed long-lived searcher")
+            ctx.stat("refreshed-searcher-checked")
         d = rs.get("dump")
         if d is None:
             continue
@@ -202,10 +249,52 @@ def check_case(ctx, pid, case, reply, label):
             ctx.divergence("content", dict(where, diff=df), sorted(exp_model["docs"]), sorted(d["docs"], key=repr))
         if spec_eq_model:
             _against_spec(ctx, where, tables, ms["spec"], exp_spec, d)
+        _reader_consistency(ctx, where, tables, d)
         if d["has_deletions"]:
             ctx.stat("commit-with-deletions")
         ctx.stat("segments:%d" % min(d["nsegments"], 6))
     return nontrivial
+
+
+def _reader_consistency(ctx, where, tables, d):
+    """What the (multi) reader derives from its segments must agree with the segments: the top-level
+    column reader row by row, and the combined term statistics with the physical postings."""
+    if d.get("topcol_mismatch"):
+        m = d["topcol_mismatch"][0]
+        first = any(m[1] == off for off in _offsets(d["layout"])[1:])
+        sig = ("MultiReader.column_reader:row-of-first-doc-of-a-later-segment" if first
+               else "MultiReader.column_reader:row!=segment-row")
+        ctx.violation(sig, dict(where, field=m[0], docnum=m[1], key=m[2]), m[3], m[4],
+                      "reader.column_reader(f)[docnum] differs from the segment's own column row")
+    names = set(io.FIELD_ORDER)
+    exp = io.expected_terminfo(tables, d["layout"], set(f for f, _ in d["terminfo"]))
+    for key in sorted(d["terminfo"]):
+        got = d["terminfo"][key]
+        want = exp.get(key)
+        if want is None or isinstance(got, str):
+            ctx.violation("term_info:raised-or-unknown-term", dict(where, term=key), want, got, "term_info of a lexicon term")
+            break
+        if (got[5], got[6]) != (want[5], want[6]):
+            ctx.violation("MultiReader.term_info:min_id/max_id!=posting ids", dict(where, term=key),
+                          (want[5], want[6]), (got[5], got[6]),
+                          "term_info().min_id()/max_id() are not the first/last posting of the term")
+            break
+        if got[0] != want[0] or abs(got[1] - want[1]) > 1e-9 * max(1.0, abs(want[1])):
+            ctx.violation("MultiReader.term_info:doc_frequency/weight", dict(where, term=key), want[:2], got[:2],
+                          "combined doc_frequency/weight differ from the postings")
+            break
+        if (got[2], got[3]) != (want[2], want[3]) or got[4] != want[4]:
+            ctx.violation("MultiReader.term_info:min/max length, max weight", dict(where, term=key), want[2:5], got[2:5],
+                          "combined min/max length or max weight differ from the postings")
+            break
+
+
+def _offsets(layout):
+    offs, base = [], 0
+    for cnt, _, _ in layout:
+        offs.append(base)
+        base += cnt
+    return offs
 
 
 def _against_spec(ctx, where, tables, content, exp, d):
@@ -247,6 +336,16 @@ def _against_spec(ctx, where, tables, content, exp, d):
                 continue
             ctx.violation("probe:%s!=live-matches" % q[0], dict(where, probe=name), e, pr,
                           "search results differ from the live matching documents")
+        if "top" in pr and "error" not in pr:
+            for k, hits in sorted(pr["top"].items()):
+                got = [h[0] for h in hits]
+                if len(got) != min(int(k), len(e)) or len(set(got)) != len(got) or not set(got) <= set(e):
+                    dead = [x for x in got if x not in e]
+                    ctx.violation("search(limit=k):%s" % ("returns a deleted or non-matching document" if dead
+                                                           else "wrong number of hits"),
+                                  dict(where, probe=name, limit=k), e, hits,
+                                  "a limited scored search returned a document that is not a live match")
+                    break
 
 
 def _lean_batch(ctx, cases, family="c07"):
@@ -266,8 +365,10 @@ def _lean_batch(ctx, cases, family="c07"):
 
 
 def run(ctx):
-    n = ctx.budget(600, 7000)
-    seeds = [(ID, ctx.seed, ctx.tier, i) for i in range(n)]
+    n = ctx.budget(900, 7000)
+    corpus = io.corpus_items(ID)
+    ctx.stat("corpus-cases", len(corpus))
+    seeds = corpus + [(ID, ctx.seed, ctx.tier, i) for i in range(n)]
     cases = ctx.pmap(_run_case, seeds, chunksize=8)
     replies = _lean_batch(ctx, cases)
     for i, c in enumerate(cases):
@@ -277,8 +378,8 @@ def run(ctx):
                           "no exception", c["crash"] + "\n" + c.get("trace", ""), "a writer history raised")
             continue
         nt = check_case(ctx, ID, c, replies[i], "e2e")
-        ctx.case(("world", ctx.seed, i), nontrivial=nt)
-        if i < 2:
+        ctx.case(("world", seeds[i][1] if seeds[i][0] == "corpus" else (ctx.seed, i)), nontrivial=nt)
+        if len(corpus) <= i < len(corpus) + 2:
             ctx.sample({"sessions": c["world"]["sessions"][:3], "fields": c["world"]["fields"]})
 
 
